@@ -845,6 +845,9 @@ class Gen:
           if sg["kind"] != "InPort": continue
           for (path, t) in roots(sg):
             path = f"{iname}.{path}"
+            if k.get("p_ff_child") and rng.random() < k["p_ff_child"]:
+              # the parent registers the child's input: an update_ff block of the parent writes the child's InPort
+              ff_targets.append((self.root_ref(path, t), t)); continue
             parts = self.parts_of(path, t, 2) if rng.random() < k["p_split"] * 0.6 else [self.root_ref(path, t)]
             for p in parts:
               self.drive(cls, p, avail + regs, comb_targets, rank - 0.5, whole=(len(parts) == 1), t=t, child=True)
